@@ -267,6 +267,9 @@ def run(ctx, fb, cfg):
     streams.check_mplus(ctx, lib, DFS, R + "K3.merge-dfs")
     streams.check_bind(ctx, lib, DFS, R + "K3.bind-dfs")
     streams.check_conj_new(ctx, lib, R + "K6.conj-new", "crate::operator::conj::DFSConj::new", "DFSGoal", "DFSConj")
+    import goalkinds
+
+    goalkinds.check_goal_kinds(ctx, lib, R + "K5.goal-kinds")
     streams.check_disj_new(ctx, lib, R + "K6.disj-new", "crate::operator::disj::Disj::new", "disj::Disj")
     streams.check_disj_new(ctx, lib, R + "K6.disj-new", "crate::operator::disj::DFSDisj::new", "DFSDisj")
     streams.check_disj_solve(ctx, lib, DFS, R + "K3.disj-dfs", "<crate::operator::disj::DFSDisj as crate::solver::Solve>::solve")
